@@ -275,3 +275,26 @@ def spec_check(W, k, files, rep, rows=None, complete=True, patterns=(), paths=No
                 if not any(v2[0] == b[0] and v2[1] <= b[2] and b[1] <= v2[1] + v2[3] - 1 for v2 in rep) and not excused(b[0], b[1], b[2]):
                     bad.append("incomplete")
     return sorted(set(bad))
+
+
+# ------------------------------------------------------------------ the documented block filters (docs/dry-linter.md
+# "Available Filters"), Python mirror of Model/DryFilter.v *_ref: only used to NAME a failing input when the Coq model
+# cannot be built (a generated item failed closed); every regular verdict is computed inside coqc
+import re as _re
+
+_KWARG = _re.compile(r"^\s*\w+\s*=\s*.+,?\s*$")
+_LOGGER = _re.compile(r"^\s*(self\.)?(logger|logging|log)\.(debug|info|warning|error|critical|exception|log)\s*\(")
+DOC_DEFAULT_FILTERS = {"keyword_argument_filter": True, "import_group_filter": True}
+
+
+def doc_filter_mask(configured: bool, custom: dict, calls, raw: list, s: int, e: int) -> int:
+    lines = raw[s - 1:e]
+    ne = [t for l in lines if (t := l.strip())]
+    kw = bool(lines) and 5 * sum(1 for l in lines if _KWARG.match(l)) >= 4 * len(lines) and any(a < b and a <= s and e <= b for a, b in calls)
+    imp = all(t.startswith(("import ", "from ")) for t in ne)
+    lg = len(ne) == 1 and bool(_LOGGER.match(ne[0]))
+    rr = len(ne) == 2 and ne[0].startswith("except ") and ne[0].endswith(":") and ne[1].startswith("raise ") and " from " in ne[1]
+    on = {**DOC_DEFAULT_FILTERS, **custom} if configured else {}
+    reg = any(ans and on.get(name, True) for name, ans in (("keyword_argument_filter", kw), ("import_group_filter", imp),
+                                                           ("logger_call_filter", lg), ("exception_reraise_filter", rr)))
+    return kw * 1 + imp * 2 + lg * 4 + rr * 8 + reg * 16
